@@ -22,13 +22,14 @@ func init() { gens["C18"] = (*Ctx).genC18 }
 const sloURL = "https://sp.example.com/saml/slo"
 
 type lresp struct {
-	Dest   string
-	II     int64
-	Issuer *string
-	Status string
-	Nested []string // StatusCode elements nested below the top-level one, outermost first (must not matter)
-	Sig    string   // none | idp | attacker | idp-then-edit | moved
-	Kind   string   // ok | garbage-b64 | garbage-xml | noroot | other-root | inflate-bomb
+	Dest         string
+	II           int64
+	Issuer       *string
+	IssuerFormat string
+	Status       string
+	Nested       []string // StatusCode elements nested below the top-level one, outermost first (must not matter)
+	Sig          string   // none | idp | attacker | idp-then-edit | moved
+	Kind         string   // ok | garbage-b64 | garbage-xml | noroot | other-root | inflate-bomb
 }
 
 func (c *Ctx) logoutXML(l lresp) []byte {
@@ -48,7 +49,7 @@ func (c *Ctx) logoutXML(l lresp) []byte {
 		inner = inner.StatusCode
 	}
 	if l.Issuer != nil {
-		r.Issuer = &saml.Issuer{Value: *l.Issuer}
+		r.Issuer = &saml.Issuer{Value: *l.Issuer, Format: l.IssuerFormat}
 	}
 	el := r.Element()
 	if l.Kind == "other-root" {
@@ -251,6 +252,18 @@ func (c *Ctx) genC18() {
 			l := base()
 			l.Status = st
 			c.runLogout(l, e, delay)
+		}
+		// the Issuer's optional Format attribute says nothing about who issued the message
+		for _, format := range []string{"urn:oasis:names:tc:SAML:2.0:nameid-format:entity", "urn:oasis:names:tc:SAML:1.1:nameid-format:unspecified", "urn:oasis:names:tc:SAML:2.0:nameid-format:transient", "urn:example:custom-format"} {
+			for _, is := range issuers {
+				if is == nil {
+					continue
+				}
+				l := base()
+				l.Issuer, l.IssuerFormat = is, format
+				c.count("c18-issuer-format", format[strings.LastIndex(format, ":")+1:])
+				c.runLogout(l, e, delay)
+			}
 		}
 		// nested status codes refine the top-level one and must not change the verdict
 		responder := "urn:oasis:names:tc:SAML:2.0:status:Responder"
